@@ -213,6 +213,7 @@ func main() {
 	pkcs7Malformed(r, a)
 	cbcUnpad(r, a)
 	reusedBuffers(r)
+	keyHistories(r)
 	a.flush(r)
 	r.Assume(
 		"small-scope: plaintext lengths 0..48, three byte patterns (zeros, affine, countdown ending ...,3,2,1) for key/IV/nonce/AAD/plaintext; AES and GCM are value-oblivious apart from the pad bytes, which are enumerated over all 256 values",
